@@ -16,6 +16,7 @@ pub const OP_TRYLOCK: u8 = 3;
 pub const OP_UNLOCK: u8 = 4;
 pub const OP_PROBE: u8 = 5;
 pub const OP_OBSERVE: u8 = 6;
+pub const OP_POLL_RACE: u8 = 7;
 
 // class bits
 pub const CL_ATTEMPT_WHILE_LOCKED: u32 = 0;
@@ -32,6 +33,7 @@ pub const CL_REPOLL_PENDING: u32 = 10;
 pub const CL_THREE_PENDING: u32 = 11;
 pub const CL_TERMINATED_SEEN: u32 = 12;
 pub const CL_PROBE: u32 = 13;
+pub const CL_RACING_UNLOCK: u32 = 14;
 
 const CLASS_NAMES: &[&str] = &[
     "attempt-while-locked",
@@ -48,6 +50,7 @@ const CLASS_NAMES: &[&str] = &[
     "three-pending",
     "terminated-seen",
     "probe",
+    "poll-racing-with-unlock",
 ];
 
 impl World for MutexWorld {
@@ -71,6 +74,10 @@ impl World for MutexWorld {
                 v.push(Cfg { flavour, mode, x: 0, y: 0, k, sw: 0 });
             }
         }
+        // y = 1: polls that race with the guard being dropped by another thread
+        for mode in [0u8, 1] {
+            v.push(Cfg { flavour: FL_CHECKED, mode, x: 0, y: 1, k, sw: 0 });
+        }
         v
     }
     fn enum_configs(&self, tier: Tier) -> Vec<(Cfg, usize)> {
@@ -91,6 +98,8 @@ impl World for MutexWorld {
             spec("unlock", 18, 0, 0),
             spec("probe_after_done", 1, cfg.k, 0),
             spec("observe", 2, 0, 0),
+            // poll while another thread drops the guard at the first instant the internal lock is free
+            spec("poll_racing_unlock", if cfg.y == 1 { 14 } else { 0 }, cfg.k, 2),
         ]
     }
     fn run(&self, cfg: &Cfg, ops: &[Op], run: &mut Run) {
@@ -113,7 +122,7 @@ impl World for MutexWorld {
         }
     }
     fn cfg_desc(&self, cfg: &Cfg) -> String {
-        format!("mutex flavour={} fair={} slots={}", flavour_name(cfg.flavour), cfg.mode == 1, cfg.k)
+        format!("mutex flavour={} fair={} slots={}{}", flavour_name(cfg.flavour), cfg.mode == 1, cfg.k, if cfg.y == 1 { " racing-unlock" } else { "" })
     }
     fn class_names(&self) -> &'static [&'static str] {
         CLASS_NAMES
@@ -209,7 +218,7 @@ fn run_m<M: RawMutex>(cfg: &Cfg, ops: &[Op], run: &mut Run) {
                 }
                 None => run.noops += 1,
             },
-            OP_POLL => match next_where(&slots, op.a, |s| s.pollable()) {
+            OP_POLL | OP_POLL_RACE => match next_where(&slots, op.a, |s| s.pollable()) {
                 Some(s) => {
                     let was_pending = slots[s].pending();
                     let prev_w = slots[s].last_w;
@@ -217,7 +226,29 @@ fn run_m<M: RawMutex>(cfg: &Cfg, ops: &[Op], run: &mut Run) {
                     if guard.is_some() {
                         run.class(CL_ATTEMPT_WHILE_LOCKED);
                     }
+                    // the holder (another thread) drops its guard at the first instant inside this
+                    // poll at which the mutex' internal lock is free
+                    let race = op.code == OP_POLL_RACE && cfg.y == 1 && cfg.flavour == FL_CHECKED && guard.is_some();
+                    unsafe fn inject<'x, M: RawMutex + 'x>(ctx: usize) {
+                        drop((*(ctx as *mut Option<GenericMutexGuard<'x, M, u64>>)).take());
+                    }
+                    if race {
+                        run.class(CL_RACING_UNLOCK);
+                        if pending_before >= 1 {
+                            run.class(CL_UNLOCK_WITH_PENDING);
+                        }
+                        tls::install_unlock_hook(&mut guard as *mut Option<GenericMutexGuard<'_, M, u64>> as usize, inject::<M>);
+                    }
                     let r = slots[s].poll(op.b, run);
+                    if race {
+                        let (fired, relocked) = tls::remove_unlock_hook();
+                        if !fired {
+                            if let Some(g) = guard.take() {
+                                run.call("drop(guard)", || drop(g));
+                            }
+                        }
+                        run.note(|| format!("  (racing unlock: inside the poll: {}, poll locked again afterwards: {})", fired, relocked));
+                    }
                     match r {
                         Some(Poll::Ready(g)) => {
                             if slots[s].arrival != 0 {
